@@ -33,7 +33,7 @@ STORAGE_STORERS = {"vector.Vector.__init__", "vector.Vector.__setitem__", "vecto
 
 def run(ctx) -> None:
     ctx.rule("a.tuple-storage", "every store to a `_underlying` field assigns a value of tuple provenance "
-                                "(tuple(...) call, tuple display/concatenation, or a name bound only to such)", 6)
+                                "(tuple(...) call, tuple display/concatenation, or a name bound only to such)", 3)
     ctx.rule("a.no-inplace", "no subscript store / delete / mutating method / augmented assignment has an expression "
                              "rooted at `<x>._underlying` (or a local alias of it) as receiver (expected 0; fixture-armed)", 1)
     ctx.rule("b.who-stores", "only Vector.__init__, Vector.__setitem__, Vector._promote and Table._replace_column store "
@@ -41,8 +41,8 @@ def run(ctx) -> None:
     ctx.rule("b.fresh-columns", "every Vector object that becomes a column of a Table is FRESH in the storing function "
                                 "(a .copy() / constructor result on every reaching definition)", 2)
     ctx.rule("c.pure", "functions outside the mutator set have an empty content-write summary on every parameter "
-                       "(interprocedural, to fixpoint); cache fields _fp/_fp_powers/_column_map/_wild are exempt", 150)
-    ctx.rule("c.mutator-scope", "a mutator / constructor writes only its receiver, never another operand", 15)
+                       "(interprocedural, to fixpoint); cache fields _fp/_fp_powers/_column_map/_wild are exempt", 100)
+    ctx.rule("c.mutator-scope", "a mutator / constructor writes only its receiver, never another operand", 8)
     ctx.rule("d.refusal-first", "in Vector.__setitem__ the check_writable call on the current storage dominates every "
                                 "write event on self; _promote is only reached from there or on a FRESH receiver", 2)
     ctx.section("a", _rule_a, ctx)
